@@ -403,3 +403,33 @@ package keeper
 //@   loop 2 invariant forall j int :: 0 <= j && j < $i ==> DenomPairs[data.DenomPairs[j].Denom] != None
 //@   loop 2 invariant forall d bytes :: DenomPairs[d] != old(DenomPairs)[d] ==> (exists j int :: 0 <= j && j < $i && data.DenomPairs[j].Denom == d && DenomPairs[d] == Some(data.DenomPairs[j].BaseDenom))
 //@   assigns \everything
+
+// ---- per-height historical record (C13) ----------------------------------------------------------------------
+
+//@ func (Keeper) GetLastValidators
+//@   requires forall k bytes :: LastValidatorPowers[k] != None ==> Validators[k] != None                                        // INV_VAL K2
+//@   ensures err == nil ==> len(validators) == card(LastValidatorPowers)                                                      // C13: lists_every_bonded_validator_once
+//@   ensures err == nil ==> forall j int :: 0 <= j && j < len(validators) ==> (exists k bytes :: LastValidatorPowers[k] != None && Validators[k] == Some(validators[j]))   // C13: elements_are_bonded_validators
+//@   ensures err == nil ==> forall k bytes :: LastValidatorPowers[k] != None ==> (exists j int :: 0 <= j && j < len(validators) && validators[j] == val(Validators[k]))   // C13: no_bonded_validator_missing
+//@   walk 0 invariant len(validators) == $i
+//@   walk 0 invariant forall t int :: 0 <= t && t < $i ==> LastValidatorPowers[$key(t)] != None && Validators[$key(t)] == Some(validators[t])
+//@   assigns \nothing
+
+//@ func (Keeper) TrackHistoricalInfo
+//@   let n := val(Params).HistoricalEntries
+//@   requires Params != None
+//@   requires forall k bytes :: LastValidatorPowers[k] != None ==> Validators[k] != None                                        // INV_VAL K2
+//@   requires forall a int64, b int64 :: a <= b && b < height && HistoricalInfos[a] != None ==> HistoricalInfos[b] != None        // INV_HIST: the records form a contiguous range ending just below the current height
+//@   assumes height >= 0                                                                                                           // A-HEIGHT
+//@   ensures err == nil ==> forall a int64 :: 0 <= a && a <= height - n ==> HistoricalInfos[a] == None                           // C13: nothing_older_than_the_retention_window
+//@   ensures err == nil ==> forall a int64 :: a > height - n && a != height ==> HistoricalInfos[a] == old(HistoricalInfos)[a]     // C13: retained_records_untouched
+//@   ensures err == nil && n != 0 ==> HistoricalInfos[height] != None && len(val(HistoricalInfos[height]).Valset) == card(LastValidatorPowers)   // C13: record_written_at_the_current_height
+//@   ensures err == nil && n != 0 ==> forall j int :: 0 <= j && j < len(val(HistoricalInfos[height]).Valset) ==> (exists k bytes :: LastValidatorPowers[k] != None
+//@        && val(HistoricalInfos[height]).Valset[j].ConsensusPubkey == val(Validators[k]).ConsensusPubkey)                         // C13: record_lists_only_bonded_validators
+//@   loop 0 invariant i <= height - n
+//@   loop 0 invariant forall a int64, b int64 :: a <= b && b <= i && b < height && HistoricalInfos[a] != None ==> HistoricalInfos[b] != None
+//@   loop 0 invariant forall a int64 :: i < a && a <= height - n ==> HistoricalInfos[a] == None
+//@   loop 0 invariant forall a int64 :: a <= i || a > height - n ==> HistoricalInfos[a] == old(HistoricalInfos)[a]
+//@   loop 1 invariant 0 <= $i && $i <= len(lastVals) && len(lastCosmosVals.Validators) == $i
+//@   loop 1 invariant forall j int :: 0 <= j && j < $i ==> lastCosmosVals.Validators[j].ConsensusPubkey == lastVals[j].ConsensusPubkey
+//@   assigns HistoricalInfos
